@@ -118,6 +118,16 @@ pub fn gen_model(rng: &mut Rng, version: M2Version) -> (M2Model, Vec<Tr>) {
         m.cameras.push(cam);
     }
     m.raw_data.camera_lookup_table = (0..ncam as u16).collect();
+    // pre-WotLK models carry their skin profiles inside the file: 0..2 of them, every list empty / one / many elements
+    if m.header.version <= 263 {
+        let sub = if m.header.version < 260 { 32 } else { 48 };
+        for _ in 0..rng.below(3) {
+            let (ni, nt, np, ns, nb) = (count(rng), count(rng) * 3, count(rng), count(rng), [0usize, 1, 2, 3, 4, 5, 8][rng.below(7) as usize]);
+            let mut mv = vec![0u8; 44]; mv[40..44].copy_from_slice(&(rng.below(64) as u32).to_le_bytes());
+            m.raw_data.embedded_skins.push(wow_m2::model::EmbeddedSkinRaw { model_view: mv, indices: rng.bytes(ni * 2), triangles: rng.bytes(nt * 2), properties: rng.bytes(np * 4), submeshes: rng.bytes(ns * sub), batches: rng.bytes(nb * 24),
+                original_model_view_offset: 0, original_indices_offset: 0, original_triangles_offset: 0, original_properties_offset: 0, original_submeshes_offset: 0, original_batches_offset: 0 });
+        }
+    }
     (m, tracks)
 }
 
@@ -151,6 +161,8 @@ fn canon(m: &M2Model, bytes: &[u8]) -> Vec<(String, String)> {
              k(&c.roll_animation.track.timestamps, (c.roll_animation.track.values.array.count, c.roll_animation.track.values.array.offset), 4)) }).collect::<Vec<_>>())),
         ("preserved camera key frames".into(), format!("{:?}", m.raw_data.camera_animation_data.iter().map(|a| (a.camera_index, a.track_type, hex(&a.timestamps), hex(&a.values))).collect::<Vec<_>>())),
         ("camera lookup".into(), format!("{:?}", m.raw_data.camera_lookup_table)),
+        // pre-WotLK: the skin profiles inside the model file (every list with its element count, as the reader sizes them)
+        ("embedded skins".into(), format!("{:?}", m.raw_data.embedded_skins.iter().map(|k| (hex(&k.indices), hex(&k.triangles), hex(&k.properties), hex(&k.submeshes), hex(&k.batches), hex(&k.model_view[k.model_view.len().saturating_sub(4)..]))).collect::<Vec<_>>())),
     ]
 }
 
